@@ -23,6 +23,7 @@ namespace Layers
 inductive Err where
   | tooManyDictionaries | tooLargeDictionaryId | tooLargeWordId | invalidPos
   | invalidSplit | splitRef | fieldSize | invalidWordId | posLimit | invalidSize | garbled
+  | invalidData | noOovPlugin | disconnect
 deriving Repr, DecidableEq
 
 inductive Outcome (α : Type) where
@@ -61,8 +62,13 @@ def P28 : Nat := 268435456
 /-- `MAX_DICTIONARIES` -/
 def MAXD : Nat := 15
 
-/-- `((dic & 0xf) << 28) | (word & WORD_MASK)` -/
-def mkRaw (dic word : Nat) : Nat := (dic % 16) * P28 + word % P28
+/-- `WORD_MASK` -/
+def WORD_MASK : Nat := 0x0fffffff
+
+/-- `WordId::new`: `((dic & 0xf) as u32) << 28 | (word & WORD_MASK)` — transcribed at the bit level (`&&&`, `<<<`, `|||`
+on `Nat`; the operands are `u8`/`u32`, no bit is shifted out: `(dic & 0xf) << 28 < 2^32`).  The arithmetic reading
+`(dic % 16) * 2^28 + word % 2^28` is the lemma `Layers.mkRaw_eq`. -/
+def mkRaw (dic word : Nat) : Nat := ((dic &&& 0xf) <<< 28) ||| (word &&& WORD_MASK)
 
 /-- `WordId::new` with its two `debug_assert_eq!` (debug build) -/
 def widNew (dic word : Nat) : Outcome Nat :=
@@ -77,9 +83,9 @@ def widChecked (dic word : Nat) : Outcome Nat :=
   else widNew dic word
 
 /-- `WordId::dic`: `(raw >> 28) as u8` (raw is a `u32`) -/
-def dicOf (raw : Nat) : Nat := raw / P28
-/-- `WordId::word` -/
-def wordOf (raw : Nat) : Nat := raw % P28
+def dicOf (raw : Nat) : Nat := (raw >>> 28) % 256
+/-- `WordId::word`: `raw & WORD_MASK` -/
+def wordOf (raw : Nat) : Nat := raw &&& WORD_MASK
 def isOov (raw : Nat) : Bool := dicOf raw == 15
 def isSystem (raw : Nat) : Bool := dicOf raw == 0
 def isUser (raw : Nat) : Bool := !(dicOf raw == 0 || dicOf raw == 15)
@@ -583,10 +589,22 @@ structure Dict where
   set : LexSet
 deriving Repr
 
+/-- `Grammar::merge`: `self.pos_list.extend(other.pos_list)` — every entry of the other list is appended, in order,
+ALSO an entry the grammar already holds (registered by a plugin, declared by an earlier user dictionary or — never
+written by the builder, but readable — a system POS): `LexiconSet` rebases positionally, so the copy is what the
+dictionary's words name. -/
+def grammarMerge (g other : List Pos) : List Pos := g ++ other
+
+/-- the "clean-up" of `seeded/C12a`: skip the entries `get_part_of_speech_id` already finds (NOT the code; kept to
+state what goes wrong with it, `C12.merge_skipping_known_counterexample`) -/
+def grammarMergeSkip : List Pos → List Pos → List Pos
+  | g, [] => g
+  | g, p :: ps => if (getPosId g p).isSome then grammarMergeSkip g ps else grammarMergeSkip (g ++ [p]) ps
+
 /-- `merge_user_dictionary`: `append(user_lexicon, pos_list.len())?`, then `grammar.merge` -/
 def mergeUser (d : Dict) (ownPos : List Pos) (lex : Lexicon) : Outcome Dict :=
   match d.set.append lex d.posList.length with
-  | .ok s => .ok ⟨d.posList ++ ownPos, s⟩
+  | .ok s => .ok ⟨grammarMerge d.posList ownPos, s⟩
   | .err e => .err e
   | .panic w => .panic w
 
